@@ -142,7 +142,12 @@ pub async fn serve(peer: mt::Peer, script: Script, log: Arc<Mutex<Log>>) {
                 } else {
                     &script.ephemeral
                 };
-                format!("<data>{cfg}</data>")
+                // RFC 6241 §6 subtree filtering, as far as the agent's filters go: a `<policy-statement>`
+                // with child selection nodes selects only those children (and the list key `name`)
+                match selection_nodes(&req) {
+                    Some(keep) => format!("<data>{}</data>", prune(cfg, &keep)),
+                    None => format!("<data>{cfg}</data>"),
+                }
             }
             "load-configuration" => {
                 "<load-configuration-results><ok/></load-configuration-results>".to_string()
@@ -150,12 +155,15 @@ pub async fn serve(peer: mt::Peer, script: Script, log: Arc<Mutex<Log>>) {
             "commit-configuration" | "close-session" => "<ok/>".to_string(),
             _ => String::new(), // open-configuration, close-configuration: bare reply
         };
+        // the error-tag of an injected error varies with the position: the tag never excuses an error
+        const TAGS: [&str; 8] = ["operation-failed", "data-missing", "in-use", "data-exists", "lock-denied", "bad-element", "unknown-element", "access-denied"];
+        let err_here = ERR.replace("operation-failed", TAGS[pos % TAGS.len()]);
         let msg = match fault {
             Some(Fault::RpcError) => {
                 if name == "load-configuration" {
-                    reply(&id, &format!("<load-configuration-results>{ERR}<load-error-count>1</load-error-count></load-configuration-results>"))
+                    reply(&id, &format!("<load-configuration-results>{err_here}<load-error-count>1</load-error-count></load-configuration-results>"))
                 } else {
-                    reply(&id, ERR)
+                    reply(&id, &err_here)
                 }
             }
             Some(Fault::ErrWarnOk) => {
@@ -165,32 +173,32 @@ pub async fn serve(peer: mt::Peer, script: Script, log: Arc<Mutex<Log>>) {
                     "<ok/>".to_string()
                 };
                 if name == "load-configuration" {
-                    reply(&id, &format!("<load-configuration-results>{ERR}{WARN}<ok/></load-configuration-results>"))
+                    reply(&id, &format!("<load-configuration-results>{err_here}{WARN}<ok/></load-configuration-results>"))
                 } else {
-                    reply(&id, &format!("{ERR}{WARN}{ok}"))
+                    reply(&id, &format!("{err_here}{WARN}{ok}"))
                 }
             }
             Some(Fault::ManyWarnErrOk) => {
                 let ok = if name == "get-config" { ok_body.clone() } else { "<ok/>".to_string() };
                 let many = WARN.repeat(300);
                 if name == "load-configuration" {
-                    reply(&id, &format!("<load-configuration-results>{many}{ERR}<ok/></load-configuration-results>"))
+                    reply(&id, &format!("<load-configuration-results>{many}{err_here}<ok/></load-configuration-results>"))
                 } else {
-                    reply(&id, &format!("{many}{ERR}{ok}"))
+                    reply(&id, &format!("{many}{err_here}{ok}"))
                 }
             }
             Some(Fault::ErrLoadSuccess) => {
                 if name == "load-configuration" {
-                    reply(&id, &format!("<load-configuration-results>{ERR}<load-success/></load-configuration-results>"))
+                    reply(&id, &format!("<load-configuration-results>{err_here}<load-success/></load-configuration-results>"))
                 } else {
-                    reply(&id, &format!("{ERR}<load-success/>"))
+                    reply(&id, &format!("{err_here}<load-success/>"))
                 }
             }
             Some(Fault::ErrCount) => {
                 if name == "load-configuration" {
-                    reply(&id, &format!("<load-configuration-results>{WARN}{ERR}<load-error-count>1</load-error-count></load-configuration-results>"))
+                    reply(&id, &format!("<load-configuration-results>{WARN}{err_here}<load-error-count>1</load-error-count></load-configuration-results>"))
                 } else {
-                    reply(&id, &format!("{WARN}{ERR}"))
+                    reply(&id, &format!("{WARN}{err_here}"))
                 }
             }
             Some(Fault::WarnOk) => {
@@ -226,6 +234,106 @@ pub async fn serve(peer: mt::Peer, script: Script, log: Arc<Mutex<Log>>) {
             return;
         }
     }
+}
+
+/// the child selection nodes of `<policy-statement>` in the request's subtree filter, if it has any
+pub fn selection_nodes(req: &str) -> Option<Vec<String>> {
+    let rest = &req[req.find("<filter")?..];
+    let after = &rest[rest.find("<policy-statement")? + "<policy-statement".len()..];
+    let gt = after.find('>')?;
+    if after[..gt].ends_with('/') {
+        return None; // a selection node itself: the whole subtree
+    }
+    let inner = &after[gt + 1..after.find("</policy-statement>")?];
+    let mut names = vec!["name".to_string()];
+    let mut i = 0;
+    while let Some(p) = inner[i..].find('<') {
+        let q = i + p + 1;
+        let n: String = inner[q..]
+            .chars()
+            .take_while(|c| c.is_alphanumeric() || *c == '-' || *c == ':')
+            .collect();
+        if !n.is_empty() && !names.contains(&n) {
+            names.push(n);
+        }
+        i = q;
+    }
+    if names.len() == 1 {
+        None
+    } else {
+        Some(names)
+    }
+}
+
+/// keep only the children named in `keep` of every `<policy-statement>`
+pub fn prune(xml: &str, keep: &[String]) -> String {
+    use quick_xml::{events::Event, Reader};
+    let mut rd = Reader::from_str(xml);
+    let mut out = String::new();
+    let mut stack: Vec<String> = vec![];
+    let mut skip: Option<usize> = None;
+    loop {
+        let a = rd.buffer_position();
+        let ev = rd.read_event();
+        let raw = &xml[a..rd.buffer_position()];
+        match ev {
+            Ok(Event::Start(t)) => {
+                let name = String::from_utf8_lossy(t.local_name().as_ref()).to_string();
+                let in_ps = stack.last().map(|s| s == "policy-statement").unwrap_or(false);
+                if skip.is_none() && in_ps && !keep.contains(&name) {
+                    skip = Some(stack.len());
+                }
+                stack.push(name);
+                if skip.is_none() {
+                    out.push_str(raw);
+                }
+            }
+            Ok(Event::End(_)) => {
+                stack.pop();
+                match skip {
+                    Some(d) => {
+                        if stack.len() == d {
+                            skip = None;
+                        }
+                    }
+                    None => out.push_str(raw),
+                }
+            }
+            Ok(Event::Empty(t)) => {
+                let name = String::from_utf8_lossy(t.local_name().as_ref()).to_string();
+                let in_ps = stack.last().map(|s| s == "policy-statement").unwrap_or(false);
+                if skip.is_none() && !(in_ps && !keep.contains(&name)) {
+                    out.push_str(raw);
+                }
+            }
+            Ok(Event::Eof) => break,
+            Ok(_) => {
+                if skip.is_none() {
+                    out.push_str(raw);
+                }
+            }
+            Err(_) => return xml.to_string(),
+        }
+    }
+    out
+}
+
+/// statements that must NOT be managed although they look like it at a glance: an annotated one with
+/// terms of its own (hand-written), an annotated one that is deactivated, one without annotation
+pub fn unmanaged_statements() -> String {
+    let jc = "xmlns:jcmd=\"http://yang.juniper.net/junos/jcmd\"";
+    format!(
+        "<policy-statement {jc} jcmd:comment=\"/* bgpfu-fltr: AS65000 */\"><name>hand</name>\
+         <term><name>own</name><from><route-filter><address>10.0.0.0/8</address><orlonger/></route-filter></from><then><accept/></then></term>\
+         <then><reject/></then></policy-statement>\
+         <policy-statement {jc} jcmd:comment=\"/* bgpfu-fltr: AS65000 */\" jcmd:active=\"false\"><name>off</name><then><reject/></then></policy-statement>\
+         <policy-statement><name>plain</name><then><reject/></then></policy-statement>"
+    )
+}
+
+/// `running` with the three unmanaged statements appended to its policy-options
+pub fn with_unmanaged(running: &str) -> String {
+    running.replacen("</policy-options>", &format!("{}</policy-options>", unmanaged_statements()), 1)
 }
 
 pub const XNM: &str = "http://xml.juniper.net/xnm/1.1/xnm";
